@@ -48,7 +48,12 @@ class ScriptedGenerator(np.random.Generator):
     def choice(self, a, size=None, replace=True, p=None, *args, **k):
         real = super().choice(a, size, replace, p, *args, **k)
         # scripts apply to weighted single choices only (the free-slot selection of a move name)
-        hit, v = self._take("choice") if (p is not None and size is None) else (False, None)
+        if p is not None and size is None:
+            hit, v = self._take("choice")
+        elif p is None and size is None:
+            hit, v = self._take("choice_u")  # unweighted single choice (a label among candidates)
+        else:
+            hit, v = False, None
         out = v if hit else real
         self.log.append(("choice", len(a) if hasattr(a, "__len__") else int(a), None if size is None else int(np.prod(size))))
         return out
